@@ -8,6 +8,7 @@ import (
 	"crypto/x509"
 	"encoding/json"
 	"errors"
+	"io"
 	"net/http"
 	"net/url"
 	"sort"
@@ -17,6 +18,7 @@ import (
 	"github.com/sassoftware/relic/v8/config"
 	"github.com/sassoftware/relic/v8/internal/authmodel"
 	"github.com/sassoftware/relic/v8/lib/audit"
+	"github.com/sassoftware/relic/v8/lib/certloader"
 	"github.com/sassoftware/relic/v8/signers"
 	"github.com/sassoftware/relic/v8/token"
 )
@@ -169,7 +171,10 @@ func VH_C04_SignAuthorization() {
 	reqName := append(append([]string{}, vhNames...), "nope")[vhConcretize(vhInt("request", 0, len(vhNames)), 4)]
 	if !vhRegistered04 {
 		vhRegistered04 = true
-		signers.Register(&signers.Signer{Name: "fake04"})
+		// a signing module (a module without a Sign function is verify-only and refused by name)
+		signers.Register(&signers.Signer{Name: "fake04", Sign: func(r io.Reader, cert *certloader.Certificate, opts signers.SignOpts) ([]byte, error) {
+			return nil, errors.New("not reached: the token stub ends the request")
+		}})
 	}
 	s := &Server{Config: conf, tokens: map[string]token.Token{"t0": vhToken{}}}
 	q := url.Values{"key": {reqName}, "filename": {"f.bin"}, "sigtype": {"fake04"}}
